@@ -290,6 +290,115 @@ func checkC04(c *Ctx) {
 		c.Bad(O1, "rbc", "ack-path voucher insertion", "-", "no voucher insertion on the acknowledgement path")
 	}
 	ruleC04Drops(c, r)
+	ruleC04Callbacks(c)
+}
+
+// ruleC04Callbacks (C04.O3): the two callbacks the orchestrator gives to every reliable-broadcast
+// instance are unconditional: the acknowledgement callback reaches Scheme.Send with the encoding of
+// its own arguments on every path, and the hand-over callback reaches the backend's OnMsg on every
+// path.  An acknowledgement that is sometimes withheld (or a hand-over that is sometimes skipped)
+// leaves the other receivers one voucher short for ever in a fault-free run.
+func ruleC04Callbacks(c *Ctx) {
+	const O3 = "C04.O3"
+	c.Rule(O3, "acknowledgement and hand-over callbacks of every RBC instance are unconditional; a received payload is always acknowledged", 5)
+	t := buildThresholdModel(c)
+	if t == nil {
+		return
+	}
+	n := 0
+	for _, ci := range callsOfFuncField(t.fns, t.fRBF) {
+		args := ci.Common().Args
+		if len(args) < 2 {
+			continue
+		}
+		for k, what := range []string{"acknowledgement callback reaches Send", "hand-over callback reaches OnMsg"} {
+			mc, ok := strip(args[k]).(*ssa.MakeClosure)
+			if !ok {
+				c.Unk(O3, FuncName(ci.Parent()), what, t.m.Pos(ci.Pos()), "the callback is not a function literal")
+				continue
+			}
+			lit := mc.Fn.(*ssa.Function)
+			c.Analysed(FuncName(lit))
+			n++
+			done := func(in ssa.Instruction) bool {
+				cc := callCommon(in)
+				if cc == nil {
+					return false
+				}
+				if k == 0 {
+					if !callsFuncField(cc, t.fSend) || len(cc.Args) < 3 {
+						return false
+					}
+					// the payload is the encoding of this callback's own arguments
+					sl := t.sl.Slice(cc.Args[2])
+					for _, p := range lit.Params {
+						if !sl[p] {
+							return false
+						}
+					}
+					return true
+				}
+				return cc.IsInvoke() && cc.Method.Name() == "OnMsg"
+			}
+			bad := ""
+			for _, e := range undoneExits(lit, done, nil) {
+				at := t.m.Pos(e.Ret.Instrs[len(e.Ret.Instrs)-1].Pos())
+				if e.B == nil {
+					bad = "the return at " + at + " is reached without it"
+				} else {
+					bad = "the return at " + at + " skips it, decided by the test at " + t.m.Pos(blockPos(e.B))
+				}
+				break
+			}
+			c.Check(bad == "", O3, FuncName(lit), what, t.m.Pos(lit.Pos()), "on every path from the entry to a return",
+				"the callback does not always do its job: "+bad+"; an acknowledgement withheld (or a hand-over skipped) on some condition leaves the other parties' receivers one voucher short for ever, or loses a delivered message, in a fault-free run")
+		}
+	}
+	if n == 0 {
+		c.Bad(O3, "threshold", "RBC instance construction", "-", "no call through Scheme.RBF with function-literal callbacks found")
+	}
+	// receiver side: a directly received broadcast payload is always acknowledged
+	r := buildRBCModel(c)
+	if r == nil {
+		return
+	}
+	nP := 0
+	for _, in := range instrsOf(r.receive) {
+		ci, ok := in.(ssa.CallInstruction)
+		if !ok {
+			continue
+		}
+		cal := staticCallee(ci.Common())
+		if cal == nil || !r.reachesSink(cal, map[*ssa.Function]bool{}) {
+			continue
+		}
+		facts := FactsAt(in)
+		isAck := hasFact(facts, func(f Fact) bool {
+			x, isLen := lenOperand(strip(f.X))
+			return f.Op == token.GTR && isLen && r.isAckDigest(x) && isZero(f.Y)
+		})
+		if isAck {
+			continue
+		}
+		nP++
+		acked := false
+		for _, a := range callsOfFuncField([]*ssa.Function{r.receive}, r.fAck) {
+			if instrDominates(a.(ssa.Instruction), in) {
+				acked = true
+			}
+		}
+		if !acked {
+			acked = pathToReturnAvoiding(in, func(x ssa.Instruction) bool {
+				cc := callCommon(x)
+				return cc != nil && callsFuncField(cc, r.fAck)
+			}, nil) == nil
+		}
+		c.Check(acked, O3, FuncName(r.receive), "received payload is acknowledged", r.m.Pos(in.Pos()), "BroadcastAck on every path through the registration of a directly received payload",
+			"a directly received broadcast payload is not always acknowledged: the other receivers never collect this party's voucher")
+	}
+	if nP == 0 {
+		c.Bad(O3, FuncName(r.receive), "received payload is acknowledged", "-", "no registration of a directly received payload found")
+	}
 }
 
 // ruleC04Drops (C04.O2): the only ways an incoming broadcast payload or acknowledgement leaves the
